@@ -1,4 +1,4 @@
-import Gallia.Model.Scans
+import Gallia.Proofs.Lemmas.ScansFrame
 namespace Gallia.Scans
 open Gallia
 
@@ -34,6 +34,13 @@ structure IsoServiceRule (ans : Nat → Bytes → Ans) (supp : Nat → Nat → B
   unsupported : ∀ ss sid p, sid < 256 → supp ss sid = false → p.head? = some (b sid) → (ans ss p).notSupported = true
   supported : ∀ ss sid p, sid < 256 → supp ss sid = true → p.head? = some (b sid) → (ans ss p).notSupported = false
 
+/-- session hooks that do not change the session themselves: no DiagnosticSessionControl / ECUReset requests -/
+def HooksInert (h : Hooks) : Prop :=
+  ∀ k p, (p ∈ h.pre k ∨ p ∈ h.post k) → p.head? ≠ some 0x10 ∧ p.head? ≠ some 0x11
+
+theorem hooksInert_default : HooksInert {} := by
+  intro k p h; simp at h
+
 theorem b_inj {x y : Nat} (hx : x < 256) (hy : y < 256) (h : b x = b y) : x = y := by
   have := congrArg UInt8.toNat h
   simp [b] at this
@@ -53,464 +60,163 @@ theorem probe_keeps_session {e : Ecu σ} (E : SessEcu e) (s : σ) (sid l : Nat) 
       · rw [probePdu_head]; intro h; injection h with h
         exact h11 (b_inj hs (by decide) h)
 
+/-- `set_session(k)` / the read-back / inert hooks leave a session-determined ECU that is in session `k` there -/
+theorem maint_keeps {e : Ecu σ} (E : SessEcu e) (h : Hooks) (hin : HooksInert h) (k : Nat) (hk : k < 0x80)
+    (s : σ) (p : Bytes) (hp : MaintReq h k p) (hs : E.sess s = k) : E.sess (e.step s p).1 = k := by
+  rcases hp with rfl | rfl | hp | hp
+  · rw [E.sess_keep s _ (by simp [readSessionPdu]) (by simp [readSessionPdu])]; exact hs
+  · cases hpos : (E.ans (E.sess s) (dscPdu k)).isPos with
+    | true => exact E.dsc_pos s k hk hpos
+    | false => rw [E.sess_neg s _ hpos]; exact hs
+  · obtain ⟨a, c⟩ := hin k p (Or.inl hp)
+    rw [E.sess_keep s _ a c]; exact hs
+  · obtain ⟨a, c⟩ := hin k p (Or.inr hp)
+    rw [E.sess_keep s _ a c]; exact hs
+
 /-! ### the probe loop for one service id -/
 
 theorem probeLens_session {e : Ecu σ} (E : SessEcu e) (sid : Nat) (hs : sid < 256) (ls : List Nat) (s : σ) :
-    E.sess (probeLens e sid ls s).2.2 = E.sess s := by
-  induction ls generalizing s with
-  | nil => simp [probeLens]
-  | cons l ls ih =>
-    have hk := probe_keeps_session E s sid l hs
-    simp only [probeLens]
-    cases ha : (e.step s (probePdu sid l)).2 with
-    | timeout => simp only []; rw [ih]; exact hk
-    | illegal => simp only []; rw [ih]; exact hk
-    | pos p => simpa using hk
-    | neg c =>
-      simp only []
-      split
-      · exact hk
-      · split
-        · rw [ih]; exact hk
-        · exact hk
+    E.sess (probeLens e sid ls s).1 = E.sess s :=
+  probeLens_inv e (fun s' => E.sess s' = E.sess s) sid ls
+    (fun s' l _ h => by rw [probe_keeps_session E s' sid l hs]; exact h) s rfl
 
 /-- whatever the probe loop records is the ECU's answer, in the session the loop started in, to a probe
     of that service id, and it is a meaningful answer -/
 theorem probeLens_some {e : Ecu σ} (E : SessEcu e) (sid : Nat) (hs : sid < 256) (ls : List Nat) (s : σ) (a : Ans)
-    (h : (probeLens e sid ls s).1 = some a) :
+    (c : Bool) (h : (probeLens e sid ls s).2 = .ok (some a, c)) :
     ∃ l ∈ ls, a = E.ans (E.sess s) (probePdu sid l) ∧ a.meaningful = true := by
-  induction ls generalizing s with
+  induction ls generalizing s c with
   | nil => simp [probeLens] at h
   | cons l ls ih =>
     have hk := probe_keeps_session E s sid l hs
     have hans := E.step_ans s (probePdu sid l)
+    have hrec : ∀ c', (probeLens e sid ls (e.step s (probePdu sid l)).1).2 = .ok (some a, c') →
+        ∃ l' ∈ l :: ls, a = E.ans (E.sess s) (probePdu sid l') ∧ a.meaningful = true := by
+      intro c' h'
+      obtain ⟨l', hl', h1, h2⟩ := ih _ c' h'
+      exact ⟨l', by simp [hl'], by rw [h1, hk], h2⟩
     simp only [probeLens] at h
-    cases ha : (e.step s (probePdu sid l)).2 with
-    | timeout =>
-      rw [ha] at h; simp only [] at h
-      obtain ⟨l', hl', h1, h2⟩ := ih _ h
-      exact ⟨l', by simp [hl'], by rw [h1, hk], h2⟩
-    | illegal =>
-      rw [ha] at h; simp only [] at h
-      obtain ⟨l', hl', h1, h2⟩ := ih _ h
-      exact ⟨l', by simp [hl'], by rw [h1, hk], h2⟩
-    | pos p =>
-      rw [ha] at h; simp only [] at h
-      injection h with h
-      exact ⟨l, by simp, by rw [← h, ← hans, ha], by rw [← h]; rfl⟩
-    | neg c =>
-      rw [ha] at h; simp only [] at h
-      split at h
-      · simp at h
-      · rename_i hns
+    cases hd : e.step s (probePdu sid l) with
+    | mk s1 a1 =>
+      rw [hd] at h hrec hans
+      simp only [] at hans
+      cases a1 with
+      | timeout => exact hrec c h
+      | stuck => simp at h
+      | illegal =>
+        simp only [] at h
+        cases hp : probeLens e sid ls s1 with
+        | mk s2 r2 =>
+          rw [hp] at h hrec
+          cases r2 with
+          | raised w => simp at h
+          | ok v =>
+            obtain ⟨r, c2⟩ := v
+            simp only [R.ok.injEq, Prod.mk.injEq] at h
+            exact hrec c2 (by simp [h.1])
+      | pos p =>
+        simp only [R.ok.injEq, Prod.mk.injEq, Option.some.injEq] at h
+        exact ⟨l, by simp, by rw [← h.1, hans], by rw [← h.1]; rfl⟩
+      | neg code =>
+        simp only [] at h
         split at h
-        · obtain ⟨l', hl', h1, h2⟩ := ih _ h
-          exact ⟨l', by simp [hl'], by rw [h1, hk], h2⟩
-        · rename_i hne
-          injection h with h
-          refine ⟨l, by simp, by rw [← h, ← hans, ha], ?_⟩
-          have hns' : ¬ c ∈ serviceNotSupportedCodes := by simpa using hns
-          rw [← h]; simp [Ans.meaningful, hns', hne]
+        · simp at h
+        · rename_i hns
+          split at h
+          · exact hrec c h
+          · rename_i hne
+            simp only [R.ok.injEq, Prod.mk.injEq, Option.some.injEq] at h
+            refine ⟨l, by simp, by rw [← h.1, hans], ?_⟩
+            have hns' : ¬ code ∈ serviceNotSupportedCodes := by simpa using hns
+            rw [← h.1]; simp [Ans.meaningful, hns', hne]
 
 /-- if no answer of the service says "not supported" and some probe length is answered meaningfully,
     the probe loop records the service -/
 theorem probeLens_complete {e : Ecu σ} (E : SessEcu e) (sid : Nat) (hs : sid < 256) (ls : List Nat) (s : σ)
     (hsup : ∀ l ∈ ls, (E.ans (E.sess s) (probePdu sid l)).notSupported = false)
-    (hm : ∃ l ∈ ls, (E.ans (E.sess s) (probePdu sid l)).meaningful = true) :
-    ((probeLens e sid ls s).1).isSome = true := by
-  induction ls generalizing s with
+    (hm : ∃ l ∈ ls, (E.ans (E.sess s) (probePdu sid l)).meaningful = true)
+    (r : Option Ans) (c : Bool) (h : (probeLens e sid ls s).2 = .ok (r, c)) : r.isSome = true := by
+  induction ls generalizing s c with
   | nil => simp at hm
   | cons l ls ih =>
     have hk := probe_keeps_session E s sid l hs
     have hans := E.step_ans s (probePdu sid l)
-    have hrest : ∀ (hnm : (E.ans (E.sess s) (probePdu sid l)).meaningful = false),
-        ((probeLens e sid ls (e.step s (probePdu sid l)).1).1).isSome = true := by
-      intro hnm
-      apply ih
+    have hrest : ∀ (hnm : (E.ans (E.sess s) (probePdu sid l)).meaningful = false) c',
+        (probeLens e sid ls (e.step s (probePdu sid l)).1).2 = .ok (r, c') → r.isSome = true := by
+      intro hnm c' h'
+      apply ih _ _ _ c' h'
       · intro l' hl'; rw [hk]; exact hsup l' (by simp [hl'])
-      · obtain ⟨l', hl', h⟩ := hm
+      · obtain ⟨l', hl', hm'⟩ := hm
         simp only [List.mem_cons] at hl'
         rcases hl' with rfl | hl'
-        · rw [hnm] at h; cases h
-        · exact ⟨l', hl', by rw [hk]; exact h⟩
-    simp only [probeLens]
-    cases ha : (e.step s (probePdu sid l)).2 with
-    | timeout =>
-      simp only []; apply hrest; rw [← hans, ha]; rfl
-    | illegal =>
-      simp only []; apply hrest; rw [← hans, ha]; rfl
-    | pos p => simp
-    | neg c =>
-      simp only []
-      have hns := hsup l (by simp)
-      rw [← hans, ha] at hns
-      simp only [Ans.notSupported] at hns
-      split
-      · rename_i hc; rw [hc] at hns; cases hns
-      · split
-        · rename_i hc
-          apply hrest; rw [← hans, ha]; simp [Ans.meaningful, hc]
-        · simp
-
-end Gallia.Scans
-
-namespace Gallia.Scans
-open Gallia
-variable {σ : Type}
-
-/-- unfolding of one iteration of `perform_scan` when `--check-session` is off -/
-theorem performScanFrom_cons_nocheck (e : Ecu σ) (cfg : SvcCfg) (hc : cfg.checkSession = false)
-    (session : Option Nat) (sid : Nat) (rest : List Nat) (s : σ) :
-    performScanFrom e cfg session (sid :: rest) s =
-      if !sidSelected cfg session sid then performScanFrom e cfg session rest s
-      else
-        match performScanFrom e cfg session rest (probeLens e sid probeLengths s).2.2 with
-        | .raised w => .raised w
-        | .ok out =>
-          .ok ⟨(match (probeLens e sid probeLengths s).1 with | some a => [(sid, a)] | none => []) ++ out.found,
-               (probeLens e sid probeLengths s).2.1 && out.clean, out.state⟩ := by
-  simp only [performScanFrom, hc]
-  split
-  · rfl
-  · cases session <;> simp <;> rfl
-
-/-- soundness, completeness and session preservation of `perform_scan` (check-session off) in one invariant -/
-theorem performScanFrom_spec {e : Ecu σ} (E : SessEcu e) (supp : Nat → Nat → Bool) (R : IsoServiceRule E.ans supp)
-    (cfg : SvcCfg) (hc : cfg.checkSession = false) (session : Option Nat) (sids : List Nat)
-    (hs : ∀ sid ∈ sids, sid < 256) (s : σ) :
-    ∃ out, performScanFrom e cfg session sids s = .ok out ∧
-      E.sess out.state = E.sess s ∧
-      (∀ p ∈ out.found, p.1 ∈ sids ∧ sidSelected cfg session p.1 = true ∧ supp (E.sess s) p.1 = true ∧
-          p.2.meaningful = true ∧ ∃ l ∈ probeLengths, p.2 = E.ans (E.sess s) (probePdu p.1 l)) ∧
-      (∀ sid ∈ sids, sidSelected cfg session sid = true → supp (E.sess s) sid = true →
-          (∃ l ∈ probeLengths, (E.ans (E.sess s) (probePdu sid l)).meaningful = true) →
-          sid ∈ out.found.map (·.1)) := by
-  induction sids generalizing s with
-  | nil => exact ⟨⟨[], true, s⟩, by simp [performScanFrom], rfl, by simp, by simp⟩
-  | cons sid rest ih =>
-    have hsid : sid < 256 := hs sid (by simp)
-    have hrest : ∀ x ∈ rest, x < 256 := fun x hx => hs x (by simp [hx])
-    rw [performScanFrom_cons_nocheck e cfg hc]
-    by_cases hsel : sidSelected cfg session sid = true
-    · simp only [hsel, Bool.not_true, Bool.false_eq_true, ite_false]
-      have hk := probeLens_session E sid hsid probeLengths s
-      obtain ⟨out, hout, hsess, hsound, hcompl⟩ := ih hrest (probeLens e sid probeLengths s).2.2
-      rw [hout]
-      refine ⟨_, rfl, by simpa [hk] using hsess, ?_, ?_⟩
-      · intro p hp
-        simp only [List.mem_append] at hp
-        rcases hp with hp | hp
-        · cases hr : (probeLens e sid probeLengths s).1 with
-          | none => rw [hr] at hp; simp at hp
-          | some a =>
-            rw [hr] at hp; simp at hp; subst hp
-            obtain ⟨l, hl, ha, hm⟩ := probeLens_some E sid hsid probeLengths s a hr
-            refine ⟨by simp, hsel, ?_, hm, l, hl, ha⟩
-            -- a meaningful answer is not a "not supported" answer, so the service is in the table
-            cases hsup : supp (E.sess s) sid with
-            | true => rfl
-            | false =>
-              have := R.unsupported _ sid (probePdu sid l) hsid hsup (probePdu_head sid l)
-              rw [← ha] at this
-              cases a with
-              | pos _ => simp [Ans.notSupported] at this
-              | neg c =>
-                simp only [Ans.notSupported] at this
-                simp only [Ans.meaningful, this] at hm
-                simp at hm
-              | timeout => simp [Ans.notSupported] at this
-              | illegal => simp [Ans.notSupported] at this
-        · obtain ⟨h1, h2, h3, h4, h5⟩ := hsound p hp
-          rw [hk] at h3 h5
-          exact ⟨by simp [h1], h2, h3, h4, h5⟩
-      · intro sid' hmem hsel' hsup' hm'
-        simp only [List.mem_cons] at hmem
-        simp only [List.map_append, List.mem_append]
-        rcases hmem with rfl | hmem
-        · left
-          have := probeLens_complete E sid' hsid probeLengths s
-            (fun l _ => R.supported _ sid' _ hsid hsup' (probePdu_head sid' l)) hm'
-          cases hr : (probeLens e sid' probeLengths s).1 with
-          | none => rw [hr] at this; cases this
-          | some a => simp
-        · right
-          exact hcompl sid' hmem hsel' (by rw [hk]; exact hsup') (by rw [hk]; exact hm')
-    · have hsel' : sidSelected cfg session sid = false := by simpa using hsel
-      simp only [hsel', Bool.not_false, ite_true]
-      obtain ⟨out, hout, hsess, hsound, hcompl⟩ := ih hrest s
-      refine ⟨out, hout, hsess, ?_, ?_⟩
-      · intro p hp
-        obtain ⟨h1, h2⟩ := hsound p hp
-        exact ⟨by simp [h1], h2⟩
-      · intro sid' hmem hs1 hs2 hs3
-        simp only [List.mem_cons] at hmem
-        rcases hmem with rfl | hmem
-        · rw [hsel'] at hs1; cases hs1
-        · exact hcompl sid' hmem hs1 hs2 hs3
-
-end Gallia.Scans
-
-namespace Gallia.Scans
-open Gallia
-variable {σ : Type}
-
-theorem allSids_lt : ∀ sid ∈ allSids, sid < 256 := by
-  intro sid h; simpa [allSids] using h
-
-/-- the session loop of the service scan (check-session off): always completes; every reported pair is a
-    service the ECU implements in the session it was found in; and every session that was entered is scanned
-    completely -/
-theorem svcSessions_spec {e : Ecu σ} (E : SessEcu e) (supp : Nat → Nat → Bool) (R : IsoServiceRule E.ans supp)
-    (cfg : SvcCfg) (hc : cfg.checkSession = false) (sessions : List Nat) (hlt : ∀ k ∈ sessions, k < 0x80) (s : σ) :
-    ∃ r, svcSessions e cfg sessions s = .ok r ∧
-      (∀ p ∈ r.result, p.1 ∈ sessions ∧ p.2 < 256 ∧ sidSelected cfg (some p.1) p.2 = true ∧ supp p.1 p.2 = true) ∧
-      ((∀ ss t, t ∈ sessions → (E.ans ss (dscPdu t)).isPos = true) →
-        ∀ k ∈ sessions, ∀ sid, sid < 256 → sidSelected cfg (some k) sid = true → supp k sid = true →
-          (∃ l ∈ probeLengths, (E.ans k (probePdu sid l)).meaningful = true) → (k, sid) ∈ r.result) := by
-  induction sessions generalizing s with
-  | nil => exact ⟨⟨[], true, s⟩, by simp [svcSessions], by simp, by simp⟩
-  | cons k rest ih =>
-    have hk : k < 0x80 := hlt k (by simp)
-    have hrest : ∀ x ∈ rest, x < 0x80 := fun x hx => hlt x (by simp [hx])
-    have hans := E.step_ans s (dscPdu k)
-    simp only [svcSessions]
-    cases ha : (e.step s (dscPdu k)).2 with
-    | pos pdu =>
-      simp only []
-      have hpos : (E.ans (E.sess s) (dscPdu k)).isPos = true := by rw [← hans, ha]; rfl
-      have hsess := E.dsc_pos s k hk hpos
-      obtain ⟨out, hout, hso, hsound, hcompl⟩ :=
-        performScanFrom_spec E supp R cfg hc (some k) allSids allSids_lt (e.step s (dscPdu k)).1
-      simp only [performScan, hout]
-      obtain ⟨r, hr, hrs, hrc⟩ := ih hrest out.state
-      rw [hr]
-      refine ⟨_, rfl, ?_, ?_⟩
-      · intro p hp
-        simp only [List.mem_append, List.mem_map] at hp
-        rcases hp with ⟨q, hq, rfl⟩ | hp
-        · obtain ⟨h1, h2, h3, _⟩ := hsound q hq
-          rw [hsess] at h3
-          exact ⟨by simp, allSids_lt _ h1, h2, h3⟩
-        · obtain ⟨h1, h2⟩ := hrs p hp
-          exact ⟨by simp [h1], h2⟩
-      · intro hall k' hk' sid hsid hsel hsup hm
-        simp only [List.mem_append, List.mem_map]
-        simp only [List.mem_cons] at hk'
-        by_cases hkk : k' = k
-        · subst hkk
-          left
-          have := hcompl sid (by simp [allSids, hsid]) hsel (by rw [hsess]; exact hsup) (by rw [hsess]; exact hm)
-          simp only [List.mem_map] at this
-          obtain ⟨q, hq, rfl⟩ := this
-          exact ⟨q, hq, rfl⟩
-        · right
-          rcases hk' with rfl | hk'
-          · exact absurd rfl hkk
-          · exact hrc (fun ss t ht => hall ss t (by simp [ht])) k' hk' sid hsid hsel hsup hm
-    | neg c =>
-      simp only []
-      obtain ⟨r, hr, hrs, hrc⟩ := ih hrest (e.step s (dscPdu k)).1
-      rw [hr]
-      refine ⟨_, rfl, ?_, ?_⟩
-      · intro p hp; obtain ⟨h1, h2⟩ := hrs p hp; exact ⟨by simp [h1], h2⟩
-      · intro hall; have := hall (E.sess s) k (by simp); rw [← hans, ha] at this; cases this
-    | timeout =>
-      simp only []
-      obtain ⟨r, hr, hrs, hrc⟩ := ih hrest (e.step s (dscPdu k)).1
-      rw [hr]
-      refine ⟨_, rfl, ?_, ?_⟩
-      · intro p hp; obtain ⟨h1, h2⟩ := hrs p hp; exact ⟨by simp [h1], h2⟩
-      · intro hall; have := hall (E.sess s) k (by simp); rw [← hans, ha] at this; cases this
-    | illegal =>
-      simp only []
-      obtain ⟨r, hr, hrs, hrc⟩ := ih hrest (e.step s (dscPdu k)).1
-      rw [hr]
-      refine ⟨_, rfl, ?_, ?_⟩
-      · intro p hp; obtain ⟨h1, h2⟩ := hrs p hp; exact ⟨by simp [h1], h2⟩
-      · intro hall; have := hall (E.sess s) k (by simp); rw [← hans, ha] at this; cases this
-
-end Gallia.Scans
-
-namespace Gallia.Scans
-open Gallia
-variable {σ : Type}
-
-/-! ### which requests go on the wire: a logging wrapper around any ECU -/
-
-/-- the same ECU, remembering every request it was sent (newest first) -/
-def logged (e : Ecu σ) : Ecu (σ × List Bytes) where
-  step s p := (((e.step s.1 p).1, p :: s.2), (e.step s.1 p).2)
-
-theorem probeLens_log (e : Ecu σ) (sid : Nat) (ls : List Nat) (s : σ × List Bytes) :
-    ∃ new, (probeLens (logged e) sid ls s).2.2.2 = new ++ s.2 ∧
-      (∀ r ∈ new, ∃ l ∈ ls, r = probePdu sid l) ∧
-      (∀ l rest, ls = l :: rest → probePdu sid l ∈ new) := by
-  induction ls generalizing s with
-  | nil => exact ⟨[], by simp [probeLens], by simp, by simp⟩
-  | cons l ls ih =>
-    obtain ⟨new, h1, h2, _⟩ := ih ((logged e).step s (probePdu sid l)).1
-    have hlog : ((logged e).step s (probePdu sid l)).1.2 = probePdu sid l :: s.2 := rfl
-    have hgo : ∃ new', (probeLens (logged e) sid ls ((logged e).step s (probePdu sid l)).1).2.2.2 = new' ++ s.2 ∧
-        (∀ r ∈ new', ∃ l' ∈ l :: ls, r = probePdu sid l') ∧ probePdu sid l ∈ new' := by
-      refine ⟨new ++ [probePdu sid l], by rw [h1, hlog]; simp, ?_, by simp⟩
-      intro r hr
-      simp only [List.mem_append, List.mem_singleton] at hr
-      rcases hr with hr | rfl
-      · obtain ⟨l', hl', e'⟩ := h2 r hr; exact ⟨l', by simp [hl'], e'⟩
-      · exact ⟨l, by simp, rfl⟩
-    have hstop : ∃ new', ((logged e).step s (probePdu sid l)).1.2 = new' ++ s.2 ∧
-        (∀ r ∈ new', ∃ l' ∈ l :: ls, r = probePdu sid l') ∧ probePdu sid l ∈ new' :=
-      ⟨[probePdu sid l], by simp [hlog], by intro r hr; simp at hr; exact ⟨l, by simp, hr⟩, by simp⟩
-    have wrap : ∀ {x : List Bytes}, (∃ new', x = new' ++ s.2 ∧ (∀ r ∈ new', ∃ l' ∈ l :: ls, r = probePdu sid l') ∧
-        probePdu sid l ∈ new') → ∃ new', x = new' ++ s.2 ∧ (∀ r ∈ new', ∃ l' ∈ l :: ls, r = probePdu sid l') ∧
-        (∀ l0 rest, l :: ls = l0 :: rest → probePdu sid l0 ∈ new') := by
-      rintro x ⟨n, a, b', c⟩
-      exact ⟨n, a, b', by intro l0 rest h; injection h with h _; subst h; exact c⟩
-    simp only [probeLens]
-    cases ha : ((logged e).step s (probePdu sid l)).2 with
-    | timeout => exact wrap hgo
-    | illegal => exact wrap hgo
-    | pos p => exact wrap hstop
-    | neg c =>
-      simp only []
-      split
-      · exact wrap hstop
-      · split
-        · exact wrap hgo
-        · exact wrap hstop
-
-/-- requests of `perform_scan` (check-session off): only probes of selected service ids, and the first
-    probe of every selected service id -/
-theorem performScanFrom_log (e : Ecu σ) (cfg : SvcCfg) (hc : cfg.checkSession = false) (session : Option Nat)
-    (sids : List Nat) (s : σ × List Bytes) :
-    ∃ out new, performScanFrom (logged e) cfg session sids s = .ok out ∧ out.state.2 = new ++ s.2 ∧
-      (∀ r ∈ new, ∃ sid ∈ sids, sidSelected cfg session sid = true ∧ ∃ l ∈ probeLengths, r = probePdu sid l) ∧
-      (∀ sid ∈ sids, sidSelected cfg session sid = true → probePdu sid 1 ∈ new) := by
-  induction sids generalizing s with
-  | nil => exact ⟨⟨[], true, s⟩, [], by simp [performScanFrom], by simp, by simp, by simp⟩
-  | cons sid rest ih =>
-    rw [performScanFrom_cons_nocheck _ cfg hc]
-    by_cases hsel : sidSelected cfg session sid = true
-    · simp only [hsel, Bool.not_true, Bool.false_eq_true, ite_false]
-      obtain ⟨n1, h1, h2, h3⟩ := probeLens_log e sid probeLengths s
-      obtain ⟨out, n2, ho, hl, ha, hb⟩ := ih (probeLens (logged e) sid probeLengths s).2.2
-      rw [ho]
-      refine ⟨_, n2 ++ n1, rfl, by simp only []; rw [hl, h1]; simp, ?_, ?_⟩
-      · intro r hr
-        simp only [List.mem_append] at hr
-        rcases hr with hr | hr
-        · obtain ⟨sid', hs', rest'⟩ := ha r hr; exact ⟨sid', by simp [hs'], rest'⟩
-        · obtain ⟨l, hl', e'⟩ := h2 r hr; exact ⟨sid, by simp, hsel, l, hl', e'⟩
-      · intro sid' hm hs'
-        simp only [List.mem_cons] at hm
-        simp only [List.mem_append]
-        rcases hm with rfl | hm
-        · right; exact h3 1 [2, 3, 5] rfl
-        · left; exact hb sid' hm hs'
-    · have hsel' : sidSelected cfg session sid = false := by simpa using hsel
-      simp only [hsel', Bool.not_false, ite_true]
-      obtain ⟨out, n2, ho, hl, ha, hb⟩ := ih s
-      refine ⟨out, n2, ho, hl, ?_, ?_⟩
-      · intro r hr; obtain ⟨sid', hs', rest'⟩ := ha r hr; exact ⟨sid', by simp [hs'], rest'⟩
-      · intro sid' hm hs'
-        simp only [List.mem_cons] at hm
-        rcases hm with rfl | hm
-        · rw [hsel'] at hs'; cases hs'
-        · exact hb sid' hm hs'
-
-/-! ### identifier scan -/
-
-theorem mem_idPairs (cfg : IdCfg) (did sf : Nat) :
-    (did, sf) ∈ idPairs cfg ↔ cfg.start ≤ did ∧ did ≤ effectiveEnd cfg ∧ sf ∈ subFunctions cfg := by
-  simp only [idPairs, List.mem_flatMap, List.mem_map, List.mem_range]
-  constructor
-  · rintro ⟨d, ⟨k, hk, rfl⟩, sf', hsf, h⟩
-    injection h with h1 h2; subst h1 h2
-    exact ⟨by omega, by omega, hsf⟩
-  · rintro ⟨h1, h2, h3⟩
-    exact ⟨did, ⟨did - cfg.start, by omega, by omega⟩, sf, h3, rfl⟩
-
-/-- unfolding of one iteration of the identifier loop when `--check-session` is off -/
-theorem idLoop_cons_nocheck (e : Ecu σ) (cfg : IdCfg) (hc : cfg.checkSession = none) (session : Option Nat)
-    (did sf : Nat) (rest : List (Nat × Nat)) (c : IdCount) (s : σ) :
-    idLoop e cfg session ((did, sf) :: rest) c s =
-      if skipped cfg.skip session did then idLoop e cfg session rest c s
-      else
-        match (e.step s (idPdu cfg did sf)).2 with
-        | .timeout => idLoop e cfg session rest c.addTo (e.step s (idPdu cfg did sf)).1
-        | .illegal => idLoop e cfg session rest c (e.step s (idPdu cfg did sf)).1
-        | .pos _ => idLoop e cfg session rest c.addPos (e.step s (idPdu cfg did sf)).1
-        | .neg code =>
-          if serviceNotSupportedCodes.contains code then
-            if cfg.skipNotSupported then .ok ⟨c, true, (e.step s (idPdu cfg did sf)).1⟩
-            else idLoop e cfg session rest c (e.step s (idPdu cfg did sf)).1
-          else if code = ROOR ∨ code = SFNS then idLoop e cfg session rest c (e.step s (idPdu cfg did sf)).1
-          else idLoop e cfg session rest c.addAbn (e.step s (idPdu cfg did sf)).1 := by
-  simp only [idLoop, hc]
-  split
-  · rfl
-  · cases session <;> simp <;> rfl
-
-theorem idPdu_head (cfg : IdCfg) (did sf : Nat) : (idPdu cfg did sf).head? = some (b cfg.service) := by
-  unfold idPdu; split
-  · simp
-  · split <;> simp
-
-/-- the identifier loop on a session-determined ECU (check-session and skip-not-supported off, scanned service
-    not 0x10 / 0x11): it completes, stays in the session, sends exactly the requests of the non-skipped
-    (identifier, sub-function) pairs in order, and its positive counter grows by exactly the number of those
-    pairs the ECU answers positively -/
-theorem idLoop_spec {e : Ecu σ} (E : SessEcu e) (cfg : IdCfg) (hc : cfg.checkSession = none)
-    (hns : cfg.skipNotSupported = false) (hsvc : cfg.service < 256) (h10 : cfg.service ≠ 0x10) (h11 : cfg.service ≠ 0x11)
-    (session : Option Nat) (pairs : List (Nat × Nat)) (c : IdCount) (s : σ × List Bytes) :
-    ∃ out, idLoop (logged e) cfg session pairs c s = .ok out ∧ out.completed = true ∧
-      E.sess out.state.1 = E.sess s.1 ∧
-      out.state.2 = ((pairs.filter fun p => !skipped cfg.skip session p.1).map fun p => idPdu cfg p.1 p.2).reverse ++ s.2 ∧
-      out.counts.positive = c.positive +
-        (pairs.filter fun p => !skipped cfg.skip session p.1 && (E.ans (E.sess s.1) (idPdu cfg p.1 p.2)).isPos).length := by
-  induction pairs generalizing c s with
-  | nil => exact ⟨⟨c, true, s⟩, by simp [idLoop], rfl, rfl, by simp, by simp⟩
-  | cons p rest ih =>
-    obtain ⟨did, sf⟩ := p
-    rw [idLoop_cons_nocheck _ cfg hc]
-    by_cases hsk : skipped cfg.skip session did = true
-    · simp only [hsk, ite_true]
-      obtain ⟨out, h1, h2, h3, h4, h5⟩ := ih c s
-      exact ⟨out, h1, h2, h3, by simp [hsk, h4], by simp [hsk, h5]⟩
-    · have hsk' : skipped cfg.skip session did = false := by simpa using hsk
-      simp only [hsk', Bool.false_eq_true, ite_false]
-      have hkeep : E.sess ((logged e).step s (idPdu cfg did sf)).1.1 = E.sess s.1 := by
-        show E.sess (e.step s.1 (idPdu cfg did sf)).1 = E.sess s.1
-        apply E.sess_keep
-        · rw [idPdu_head]; intro h; injection h with h; exact h10 (b_inj hsvc (by decide) h)
-        · rw [idPdu_head]; intro h; injection h with h; exact h11 (b_inj hsvc (by decide) h)
-      have hans : ((logged e).step s (idPdu cfg did sf)).2 = E.ans (E.sess s.1) (idPdu cfg did sf) :=
-        E.step_ans s.1 _
-      have hlog : ((logged e).step s (idPdu cfg did sf)).1.2 = idPdu cfg did sf :: s.2 := rfl
-      have fin : ∀ (c' : IdCount) (isp : Bool), (E.ans (E.sess s.1) (idPdu cfg did sf)).isPos = isp →
-          c'.positive = c.positive + (if isp then 1 else 0) →
-          ∃ out, idLoop (logged e) cfg session rest c' ((logged e).step s (idPdu cfg did sf)).1 = .ok out ∧
-            out.completed = true ∧ E.sess out.state.1 = E.sess s.1 ∧
-            out.state.2 = ((((did, sf) :: rest).filter fun p => !skipped cfg.skip session p.1).map
-                fun p => idPdu cfg p.1 p.2).reverse ++ s.2 ∧
-            out.counts.positive = c.positive + (((did, sf) :: rest).filter fun p =>
-                !skipped cfg.skip session p.1 && (E.ans (E.sess s.1) (idPdu cfg p.1 p.2)).isPos).length := by
-        intro c' isp hisp hc'
-        obtain ⟨out, h1, h2, h3, h4, h5⟩ := ih c' ((logged e).step s (idPdu cfg did sf)).1
-        refine ⟨out, h1, h2, by rw [h3, hkeep], ?_, ?_⟩
-        · rw [h4, hlog]; simp [List.filter_cons, hsk']
-        · rw [h5, hkeep, hc']
-          cases isp <;> simp [List.filter_cons, hsk', hisp] <;> omega
-      cases ha : ((logged e).step s (idPdu cfg did sf)).2 with
-      | timeout => exact fin _ false (by rw [← hans, ha]; rfl) (by simp [IdCount.addTo])
-      | illegal => exact fin _ false (by rw [← hans, ha]; rfl) (by simp)
-      | pos pdu => exact fin _ true (by rw [← hans, ha]; rfl) (by simp [IdCount.addPos])
+        · rw [hnm] at hm'; cases hm'
+        · exact ⟨l', hl', by rw [hk]; exact hm'⟩
+    simp only [probeLens] at h
+    cases hd : e.step s (probePdu sid l) with
+    | mk s1 a1 =>
+      rw [hd] at h hrest hans
+      simp only [] at hans
+      cases a1 with
+      | timeout => exact hrest (by rw [← hans]; rfl) c h
+      | stuck => simp at h
+      | illegal =>
+        simp only [] at h
+        cases hp : probeLens e sid ls s1 with
+        | mk s2 r2 =>
+          rw [hp] at h hrest
+          cases r2 with
+          | raised w => simp at h
+          | ok v =>
+            obtain ⟨r', c2⟩ := v
+            simp only [R.ok.injEq, Prod.mk.injEq] at h
+            exact hrest (by rw [← hans]; rfl) c2 (by simp [h.1])
+      | pos p =>
+        simp only [R.ok.injEq, Prod.mk.injEq] at h
+        rw [← h.1]; rfl
       | neg code =>
-        simp only [hns, Bool.false_eq_true, ite_false]
+        simp only [] at h
+        have hns := hsup l (by simp)
+        rw [← hans] at hns
+        simp only [Ans.notSupported] at hns
+        split at h
+        · rename_i hc; rw [hc] at hns; cases hns
+        · split at h
+          · rename_i hc
+            exact hrest (by rw [← hans]; simp [Ans.meaningful, hc]) c h
+          · simp only [R.ok.injEq, Prod.mk.injEq] at h
+            rw [← h.1]; rfl
+
+/-- the probe loop only ends in an exception when a probe is answered with an endless ResponsePending sequence -/
+theorem probeLens_ok (e : Ecu σ) (sid : Nat) (ls : List Nat) (s : σ)
+    (hn : ∀ s l, (e.step s (probePdu sid l)).2 ≠ .stuck) :
+    ∃ v, (probeLens e sid ls s).2 = .ok v := by
+  induction ls generalizing s with
+  | nil => exact ⟨_, rfl⟩
+  | cons l ls ih =>
+    have hns := hn s l
+    simp only [probeLens]
+    cases hd : e.step s (probePdu sid l) with
+    | mk s1 a1 =>
+      rw [hd] at hns
+      cases a1 with
+      | timeout => exact ih s1
+      | stuck => exact absurd rfl hns
+      | illegal =>
+        simp only []
+        obtain ⟨v, hv⟩ := ih s1
+        cases hp : probeLens e sid ls s1 with
+        | mk s2 r2 =>
+          rw [hp] at hv
+          simp only [] at hv
+          subst hv
+          exact ⟨_, rfl⟩
+      | pos p => exact ⟨_, rfl⟩
+      | neg code =>
+        simp only []
         split
-        · exact fin _ false (by rw [← hans, ha]; rfl) (by simp)
+        · exact ⟨_, rfl⟩
         · split
-          · exact fin _ false (by rw [← hans, ha]; rfl) (by simp)
-          · exact fin _ false (by rw [← hans, ha]; rfl) (by simp [IdCount.addAbn])
+          · exact ih s1
+          · exact ⟨_, rfl⟩
 
 end Gallia.Scans
